@@ -277,6 +277,12 @@ fn run_mode(a: &Args, mode: &'static str) -> Collector {
             for tok in resp.split_whitespace() {
                 if let Some(n) = tok.strip_prefix("wf=") {
                     wf = n.parse().unwrap_or(0);
+                } else if let Some(n) = tok.strip_prefix("decodable=") {
+                    // hypothesis of C05.decode_never_panics on the generated environment
+                    *c.stats.entry(format!("env-decodable-{}", n)).or_insert(0) += 1;
+                    if n != "true" {
+                        c.fail("harness", "corr", "wfall|not-decodable", "wfall".into(), resp.to_string());
+                    }
                 } else if let Some(n) = tok.strip_prefix("outside=") {
                     if !n.is_empty() {
                         outside.push(n.to_string());
